@@ -96,25 +96,35 @@ def parseCanonical (path : Bytes) : Option (List Bytes) :=
     if segs.all (· ≠ []) then some segs else none
   | _ => none
 
-/-- Any request path cut at slashes (leading slash dropped): segments, and whether it ends in a slash.
-Used only for the weak (soundness) clause outside the canonical domain. -/
-def cutAny (path : Bytes) : List Bytes × Bool :=
-  let rest := match path with
-    | '/' :: r => r
-    | _ => path
-  let segs := splitOnSlash rest
-  if segs.getLast? = some [] then (segs.dropLast, true) else (segs, false)
+/-- a request path as the matcher sees it: the text between the slashes (leading slash dropped), and
+whether the path ends in a slash (the empty text after it is not a segment) -/
+structure RPath where
+  segs : List Bytes
+  trail : Bool
+deriving DecidableEq, Repr
+
+/-- Any request path cut at slashes. Segments may be empty here (`/a//b`); `/` and the empty path are
+the root. For a canonical path this is `⟨parseCanonical path, false⟩`. -/
+def cutAny (path : Bytes) : RPath :=
+  if path = ['/'] ∨ path = [] then ⟨[], false⟩
+  else
+    let rest := match path with
+      | '/' :: r => r
+      | _ => path
+    let segs := splitOnSlash rest
+    if segs.getLast? = some [] then ⟨segs.dropLast, true⟩ else ⟨segs, false⟩
 
 /-! ### matching -/
 
 /-- Does the pattern match the segments, and with which bindings (in pattern order)?
 A literal matches the equal segment, a parameter any one segment, a trailing wildcard one or more
-remaining segments (bound, joined by `/`, to `filepath`). -/
-def matchPat : Pat → List Bytes → Option (List (Bytes × Bytes))
-  | [], [] => some []
-  | [PSeg.wild], x :: xs => some [(wildName, joinSlash (x :: xs))]
-  | PSeg.lit s :: pt, x :: xs => if s = x then matchPat pt xs else none
-  | PSeg.par n :: pt, x :: xs => (matchPat pt xs).map ((n, x) :: ·)
+remaining segments (bound to `filepath` as the rest of the path text, a trailing slash included).
+A path that ends in a slash is matched by wildcard patterns only. -/
+def matchPat (trail : Bool) : Pat → List Bytes → Option (List (Bytes × Bytes))
+  | [], [] => if trail then none else some []
+  | [PSeg.wild], x :: xs => some [(wildName, joinSlash (x :: xs) ++ (if trail then ['/'] else []))]
+  | PSeg.lit s :: pt, x :: xs => if s = x then matchPat trail pt xs else none
+  | PSeg.par n :: pt, x :: xs => (matchPat trail pt xs).map ((n, x) :: ·)
   | _, _ => none
 
 def bindGet (n : Bytes) : List (Bytes × Bytes) → Option Bytes
@@ -138,8 +148,8 @@ def consOK (sat : Nat → Bytes → Bool) (cons : List (Bytes × Nat)) (b : List
     | none => false
 
 /-- the route matches the path: pattern and constraints ("constraints are part of matching") -/
-def routeMatch (sat : Nat → Bytes → Bool) (r : Route) (segs : List Bytes) : Option (List (Bytes × Bytes)) :=
-  match matchPat r.pat segs with
+def routeMatch (sat : Nat → Bytes → Bool) (r : Route) (p : RPath) : Option (List (Bytes × Bytes)) :=
+  match matchPat p.trail r.pat p.segs with
   | some b => if consOK sat r.cons b then some b else none
   | none => none
 
@@ -155,8 +165,8 @@ def better : Pat → Pat → Bool
   | _, _ => false
 
 /-- candidates: routes of the method that match -/
-def cands (sat : Nat → Bytes → Bool) (R : List Route) (m : Bytes) (segs : List Bytes) : List Route :=
-  R.filter fun r => r.method = m ∧ (routeMatch sat r segs).isSome
+def cands (sat : Nat → Bytes → Bool) (R : List Route) (m : Bytes) (p : RPath) : List Route :=
+  R.filter fun r => r.method = m ∧ (routeMatch sat r p).isSome
 
 /-- the reference choice: a candidate no other candidate beats; among equals the last registered
 (the statement leaves that choice open, `admissible` below admits all of them) -/
@@ -165,26 +175,26 @@ def pick : Option Route → List Route → Option Route
   | none, r :: rest => pick (some r) rest
   | some c, r :: rest => if better c.pat r.pat then pick (some c) rest else pick (some r) rest
 
-def refRoute (sat : Nat → Bytes → Bool) (R : List Route) (m : Bytes) (segs : List Bytes) : Option Route :=
-  pick none (cands sat R m segs)
+def refRoute (sat : Nat → Bytes → Bool) (R : List Route) (m : Bytes) (p : RPath) : Option Route :=
+  pick none (cands sat R m p)
 
 /-- methods (of the standard seven) that have a matching route -/
-def allowedSet (sat : Nat → Bytes → Bool) (R : List Route) (segs : List Bytes) : List Bytes :=
-  stdMethods.filter fun m => (cands sat R m segs) ≠ []
+def allowedSet (sat : Nat → Bytes → Bool) (R : List Route) (p : RPath) : List Bytes :=
+  stdMethods.filter fun m => (cands sat R m p) ≠ []
 
 def lookupAsk (b : List (Bytes × Bytes)) (ask : List Bytes) : List (Bytes × Bytes) :=
   ask.map fun n => (n, (bindGet n b).getD [])
 
 /-- the reference outcome as an observation (deterministic: last registered among equals, sorted
 `Allow`, NoRoute handler answering 404 when one is installed) -/
-def refMatch (sat : Nat → Bytes → Bool) (noRoute : Bool) (R : List Route) (req : Req) (segs : List Bytes) : Obs :=
-  match refRoute sat R req.method segs with
+def refMatch (sat : Nat → Bytes → Bool) (noRoute : Bool) (R : List Route) (req : Req) (p : RPath) : Obs :=
+  match refRoute sat R req.method p with
   | some r =>
-    let b := (routeMatch sat r segs).getD []
+    let b := (routeMatch sat r p).getD []
     { status := 200, allow := [], ran := some r.rid, noRoute := false, pattern := r.text,
       params := SMap.ofList b, lookups := lookupAsk b req.ask }
   | none =>
-    let al := allowedSet sat R segs
+    let al := allowedSet sat R p
     if al ≠ [] then
       { status := 405, allow := sortBytes al, ran := none, noRoute := false, pattern := [], params := [], lookups := [] }
     else if noRoute then
@@ -196,8 +206,8 @@ def refMatch (sat : Nat → Bytes → Bool) (noRoute : Bool) (R : List Route) (r
 /-! ### the oracle as a relation on what was observed -/
 
 /-- `r` is an admissible answer: a candidate that no candidate beats -/
-def admissible (sat : Nat → Bytes → Bool) (R : List Route) (m : Bytes) (segs : List Bytes) (r : Route) : Bool :=
-  let C := cands sat R m segs
+def admissible (sat : Nat → Bytes → Bool) (R : List Route) (m : Bytes) (p : RPath) (r : Route) : Bool :=
+  let C := cands sat R m p
   C.contains r && C.all fun c => !better c.pat r.pat
 
 /-- the handler reads, under every name its own pattern declares, the corresponding segment -/
@@ -214,36 +224,27 @@ def sameSet (a b : List Bytes) : Bool := a.all (b.contains ·) && b.all (a.conta
 * some candidate exists: the chain that ran belongs to an admissible route and reads its own bindings;
 * none: no route handler ran; 405 with exactly the matching methods in `Allow` when there are any,
   otherwise 404 or the NoRoute handler. -/
-def specOK (sat : Nat → Bytes → Bool) (R : List Route) (req : Req) (segs : List Bytes) (o : Obs) : Bool :=
-  if cands sat R req.method segs ≠ [] then
+def specOK (sat : Nat → Bytes → Bool) (R : List Route) (req : Req) (p : RPath) (o : Obs) : Bool :=
+  if cands sat R req.method p ≠ [] then
     match o.ran with
     | some rid =>
-      R.any fun r => r.rid = rid && admissible sat R req.method segs r &&
-        readsOwn ((routeMatch sat r segs).getD []) o
+      R.any fun r => r.rid = rid && admissible sat R req.method p r &&
+        readsOwn ((routeMatch sat r p).getD []) o
     | none => false
   else
     o.ran.isNone &&
-    (let al := allowedSet sat R segs
+    (let al := allowedSet sat R p
      if al ≠ [] then o.status = 405 && sameSet o.allow al
      else o.status = 404 || o.noRoute)
 
 /-- Outside the canonical domain the statement does not fix whether an empty segment may bind a
 parameter, so only soundness is demanded: a route handler that ran belongs to a route of the request
-method whose pattern matches the path cut at slashes (an empty segment may bind a parameter; a trailing
-slash only a wildcard). -/
-def matchLoose : Pat → List Bytes → Bool → Bool
-  | [], [], trail => !trail
-  | [PSeg.wild], _ :: _, _ => true
-  | PSeg.lit s :: pt, x :: xs, trail => s = x && matchLoose pt xs trail
-  | PSeg.par _ :: pt, _ :: xs, trail => matchLoose pt xs trail
-  | _, _, _ => false
-
+method whose pattern matches the path cut at slashes (constraints not examined). -/
 def soundOK (R : List Route) (req : Req) (o : Obs) : Bool :=
   match o.ran with
   | some rid =>
-    let (segs, trail) := cutAny req.path
-    R.any fun r => r.rid = rid && r.method = req.method &&
-      (matchLoose r.pat segs trail || (r.pat = [] && (req.path = [] || req.path = ['/'])))
+    let p := cutAny req.path
+    R.any fun r => r.rid = rid && r.method = req.method && (matchPat p.trail r.pat p.segs).isSome
   | none => true
 
 end Rivaas.Match
